@@ -35,6 +35,9 @@ pub fn directed() -> Vec<(String, String)> {
         "functie (", "functie(1)", "functie f(", "functie f(a,", "als", "als ja", "als ja {", "zolang", "zolang ja {", "stel", "stel x", "stel x =",
         "(", ")", "((", "[", "[1,", "{", "}", "1 +", "+ 1", "1 + + 2", "!", "-", "a.b", "1 ^ 2", "&", "|", "1 & 2", "№", "\"abc", "\"abc\\",
         "// alleen commentaar", "", " ", "\n\n", ";", ";;", ",",
+        // things that look like syntax of other languages: openers without their closers
+        "/*", "/* x", "1 /* 2", "/* */", "/**/ 1", "1 */ 2", "<!--", "#", "# x", "'a'", "'", "`a`", "\"\"\"", "\"\"\" x", "${", "@x", "\\", "1 \\\n 2",
+        "0x", "0x1F", "1e", "1e5", "1_000", "1..2", "..", "1.", ".5", "1.2.3", "a..b", "::", "->", "=>", "a ? b : c", "<<", ">>", "**",
         "functie f() { f() } f()", "functie f(n) { f(n + 1) } f(0)", "zolang ja { }", "zolang ja { stel a = [1, 2, 3] }",
         "stel a = 0; zolang a < 100000 { a += 1 } a",
         "1 = 2", "a = 1", "stel a = 1; a = ", "stel a = 1; a += ", "stel a = 1; a +=", "a += 1",
